@@ -329,6 +329,8 @@ pub struct C08 {
     world: Option<World>,
     capacity: u64,
     case_ops: Vec<Value>,
+    /// monitors that already reported in the current case
+    reported: std::collections::HashSet<String>,
 }
 
 fn range_json(s: &BlockStoreState) -> Value {
@@ -356,6 +358,7 @@ impl C08 {
             world: None,
             capacity: read_capacity(),
             case_ops: vec![],
+            reported: Default::default(),
         }
     }
 
@@ -427,14 +430,13 @@ impl C08 {
         let rr = node.runner_result.clone();
         self.rt.block_on(async {
             let snap = || {
-                (
-                    manager.queued(),
-                    manager.persisted(),
-                    storage.inner.lock().unwrap().handoffs.len(),
-                    storage.inner.lock().unwrap().inbox.len(),
-                    finished.lock().unwrap().len(),
-                    *rr.lock().unwrap(),
-                )
+                let (h, i) = {
+                    let inner = storage.inner.lock().unwrap();
+                    (inner.handoffs.len(), inner.inbox.len())
+                };
+                let f = finished.lock().unwrap().len();
+                let r = *rr.lock().unwrap();
+                (manager.queued(), manager.persisted(), h, i, f, r)
             };
             let mut last = snap();
             let mut stable = 0;
@@ -532,9 +534,8 @@ impl C08 {
             (w.node.manager.queued(), w.node.manager.persisted(), w.storage.persisted.borrow().clone(), w.honest, w.racy)
         };
         let _ = racy;
-        let mut fail = |site: &str, what: String, this: &Self| {
-            out.oracle_fail(site, &what, json!({"op": op, "ops": this.case_ops}));
-        };
+        let mut found: Vec<(String, String)> = vec![];
+        let mut fail = |site: &str, what: String, _this: &Self| found.push((site.to_string(), what));
         // ranges ordered
         if p.next() > q.next() || p.first > q.first {
             fail("ranges", format!("persisted {:?} runs ahead of queued {:?}", range_json(&p), range_json(&q)), self);
@@ -625,11 +626,18 @@ impl C08 {
             }
         }
         // regress
-        let w = self.world.as_mut().unwrap();
-        if let Some(before) = w.regress_pending.take() {
+        let pending = self.world.as_mut().unwrap().regress_pending.take();
+        if let Some(before) = pending {
+            let w = self.world.as_ref().unwrap();
             let dead = w.node.runner_result.lock().unwrap().is_some();
             if !dead || w.node.manager.persisted() != before {
                 fail("regress", format!("a report with a lower head was not rejected (dead={dead})"), self);
+            }
+        }
+        // one report per monitor and case (the first failing operation), with the case's operations as the replay
+        for (site, what) in found {
+            if self.reported.insert(site.clone()) {
+                out.oracle_fail_ops(&site, &what, op.clone(), &self.case_ops);
             }
         }
     }
@@ -703,6 +711,7 @@ impl C08 {
                 Self::stop_node(&self.rt, &mut w.node);
             }
             self.case_ops.clear();
+            self.reported.clear();
             self.case_ops.push(op.clone());
             let first = op["first"].as_u64().unwrap();
             let last = op["last"].as_u64();
@@ -867,7 +876,7 @@ impl C08 {
                         EngineManager::new(&root, Box::new(Iface(storage)), time::Duration::seconds(1)).await.is_err()
                     });
                     if !refused {
-                        out.oracle_fail("restart", "EngineManager::new accepted an unverifiable durable state", json!({"op": op, "ops": self.case_ops}));
+                        out.oracle_fail_ops("restart", "EngineManager::new accepted an unverifiable durable state", op.clone(), &self.case_ops);
                     }
                 }
                 extra.insert("restarted".into(), json!(ok));
@@ -1200,6 +1209,7 @@ impl Gen {
             if self.rng.gen_bool(0.3) {
                 self.op(json!({"op":"restart"}));
             }
+            self.op(json!({"op":"scan"}));
         }
         self.op(json!({"op":"tick"}));
     }
@@ -1361,7 +1371,7 @@ impl Prop for C08 {
         match catch(|| self.exec_inner(op, out)) {
             Ok(v) => v,
             Err(site) => {
-                out.oracle_fail(&site, "the block store panicked", json!({"op": op, "ops": self.case_ops}));
+                out.oracle_fail_ops(&site, "the block store panicked", op.clone(), &self.case_ops);
                 self.world = None;
                 json!({"panic": site})
             }
